@@ -4,6 +4,7 @@ package pubsub
 
 import (
 	"context"
+	"time"
 
 	pb "github.com/libp2p/go-libp2p-pubsub/pb"
 	"github.com/libp2p/go-libp2p/core/network"
@@ -178,5 +179,41 @@ func vpH_C16_late_stream() {
 	}
 	vpCover(listed, "listed")
 	vpCover(!listed, "not listed")
+	w.n.shutdown()
+}
+
+// timecached: the same BlacklistPeer step with the REAL TimeCachedBlacklist installed, the peer possibly put into it
+// directly beforehand (its Add then reports "already there"): the clean-up of BlacklistPeer happens all the same.
+func vpH_C16_timecached() {
+	vpOpt("unwind", 10)
+	w := vpNewWorld(vpWorldCfg{P: 2, params: vpSmallParams(), scoring: true})
+	gs, ps := w.n.gs, w.n.ps
+	bl, err := NewTimeCachedBlacklist(time.Hour)
+	vpAssume(err == nil)
+	vpDropPending() // (the cache's sweeper goroutine: entries live an hour, nothing expires in this step)
+	ps.blacklist = bl
+	x := w.peers[0]
+	q0 := w.q[0]
+	already := vpBool("already_listed_directly")
+	if already {
+		bl.Add(x)
+	}
+	vpOffer(ps.blacklistPeer, x)
+	w.n.loop()
+	vpAssert(ps.blacklist.Contains(x), "BlacklistPeer puts the peer into the blacklist")
+	_, a := ps.peers[x]
+	_, b := ps.topics[vpT0][x]
+	_, c := gs.mesh[vpT0][x]
+	_, d := gs.fanout[vpT0][x]
+	_, e := gs.peers[x]
+	vpAssert(!a && (!w.up[0] || !b), "a blacklisted peer no longer appears in the node's peer lists for any topic (also when it was already listed)")
+	vpAssert(!c && !d && !e, "a blacklisted peer is removed from the router's peer set, mesh and fanout at once (also when it was already listed)")
+	if w.up[0] {
+		vpAssert(q0.closed, "the outbound queue of a blacklisted peer is closed")
+	}
+	ps.handleIncomingRPC(vpPayloadRPC(x, "A", "1"))
+	vpAssert(len(ps.val.validateQ) == 0, "nothing from it enters validation")
+	vpCover(already && w.up[0] && w.mesh[0], "already listed, still connected and in the mesh")
+	bl.(*TimeCachedBlacklist).tc.Done() // (native run: the cache's sweeper goroutine must end with the test)
 	w.n.shutdown()
 }
